@@ -135,12 +135,21 @@ func (pt *PrefixTable) Apply(ops *tlv.PrefixOpList) (dirty bool) {
 	}
 
 	for _, add := range ops.PrefixOpAdds {
+		if add.Name == nil {
+			// the Name field is absent (an empty name "/" decodes to a non-nil, zero-length Name)
+			log.Warnf("prefix-table: ignoring PrefixOpAdd without a name from %s", ops.ExitRouter.Name)
+			continue
+		}
 		log.Infof("prefix-table: added prefix for %s: %s", ops.ExitRouter.Name, add.Name)
 		router.Prefixes[add.Name.Hash()] = &PrefixEntry{Name: add.Name}
 		dirty = true
 	}
 
 	for _, remove := range ops.PrefixOpRemoves {
+		if remove.Name == nil {
+			log.Warnf("prefix-table: ignoring PrefixOpRemove without a name from %s", ops.ExitRouter.Name)
+			continue
+		}
 		log.Infof("prefix-table: removed prefix for %s: %s", ops.ExitRouter.Name, remove.Name)
 		delete(router.Prefixes, remove.Name.Hash())
 		dirty = true
